@@ -1,0 +1,36 @@
+//go:build verif
+
+package denco
+
+// This file is compiled only with the build tag `verif`. It adds read access to the internal
+// representation of a built Router for the model/code correspondence check; it changes nothing.
+
+// VerifNode is a copy of one entry of the node table of the double array.
+type VerifNode struct {
+	// Nil is set for an entry that holds no node (entry 0).
+	Nil bool
+
+	// Data is the value of the record the node was made from.
+	Data interface{}
+
+	// ParamNames are the names of the path parameters of that record.
+	ParamNames []string
+}
+
+// VerifDump returns a copy of the BASE/CHECK array (one uint32 per element:
+// 22 bits of BASE, 2 bits of flags, 8 bits of CHECK) and of the node table.
+func (rt *Router) VerifDump() (bc []uint32, nodes []VerifNode) {
+	bc = make([]uint32, len(rt.param.bc))
+	for i, e := range rt.param.bc {
+		bc[i] = uint32(e)
+	}
+	nodes = make([]VerifNode, len(rt.param.node))
+	for i, nd := range rt.param.node {
+		if nd == nil {
+			nodes[i] = VerifNode{Nil: true}
+			continue
+		}
+		nodes[i] = VerifNode{Data: nd.data, ParamNames: append([]string(nil), nd.paramNames...)}
+	}
+	return bc, nodes
+}
